@@ -60,6 +60,8 @@ def gen_header(rng):
             d = "x"
         if rng.random() < 0.25:
             d = rng.choice(">@+") + d
+        if rng.random() < 0.15:
+            d = d + rng.choice([" ", "\t"]) + rng.choice(">@+") + rand_text(rng, IDCH, 2)      # "... @xx" at the end of the title line
     elif k < 0.65:
         sep = " "           # separator but empty definition
     return rid, sep, d
@@ -232,6 +234,11 @@ CORPUS = [
     ("fastq", b"@a\nacgt\n+\nIIII\n@b\nac\n+\nII\n", [rec("a", "", "acgt", q33("IIII")), rec("b", "", "ac", q33("II"))], "simple"),
     ("fastq", b"@a x\nacgt\n+a x\n@III\n@b\nac\n+\n+I\n@c\ng\n+\n@\n", [rec("a", "x", "acgt", q33("@III")), rec("b", "", "ac", q33("+I")), rec("c", "", "g", q33("@"))], "qual-starts-with-@+"),
     ("fastq", b"@a@b +c\r\nAC\r\n+\r\nAC\r\n\r\n@+b\r\nT\r\n+acgt\r\n+", [rec("a@b", "+c", "ac", q33("AC")), rec("+b", "", "t", q33("+"))], "crlf-seq-like-qual"),
+    # a blank followed by '@' inside the title line (paired-read style "id @id/2"): '@' there is not a record start
+    ("fastq", b"@r1 @r1/2\nacgt\n+\nIIII\n@r2\t@r2/2 x\nac\n+\nII\n@r3 y @z\ng\n+\nI\n",
+     [rec("r1", "@r1/2", "acgt", q33("IIII")), rec("r2", "@r2/2 x", "ac", q33("II")), rec("r3", "y @z", "g", q33("I"))], "blank-then-@-in-title"),
+    ("fasta", b">r1 >r1/2\nacgt\n>r2\t>x\nac\n>r3 y >z\ng\n",
+     [rec("r1", ">r1/2", "acgt"), rec("r2", ">x", "ac"), rec("r3", "y >z", "g")], "blank-then->-in-title"),
     # chunk level only (records None): leading blank lines make the reader skip an all-CR/LF segment without consuming a number
     ("fasta", b"\n\n\n>a\nac\n\n>b\nc\n", None, "chunks-only:leading-eols"),
     ("fastq", b"\r\n\r\n\n@a\nac\n+\nII\n@b\nc\n+\nI\n", None, "chunks-only:leading-eols"),
